@@ -291,6 +291,21 @@ func ExecuteScenario(env *Env, sc *Scenario) (out *Outcome, err error) {
 				// records the tree the second run started from, which now holds outputs
 				a, b = dropSum(a), dropSum(b)
 			}
+			if strings.HasPrefix(sc.Variants[vi].Name, "eventual:") {
+				// D8: if the run that met the fault reported success all the same (a fallback took over), it
+				// is a successful run like any other: its files are the deterministic bytes already
+				steps := results[vi].x.Steps
+				if len(steps) > 1 && steps[0].Resp != nil && steps[0].Resp.ExecErr == "" && steps[0].Resp.LoadErr == "" && !steps[0].Killed && steps[0].Post != nil {
+					for rel, content := range dropSum(results[0].state) {
+						want := fmt.Sprintf("f:%x", sha256.Sum256([]byte(content)))
+						if got := steps[0].Post[rel]; got != want {
+							out.Violations = append(out.Violations, Violation{Property: "C04", Oracle: "D8", Class: "successful-run-after-fault-wrote-other-bytes",
+								Detail: fmt.Sprintf("%s: the run met %v, returned nil, and left %s %s (not the bytes of %s)", sc.Variants[vi].Name, steps[0].Resp.Fired, rel, map[bool]string{true: "absent", false: "with other content"}[got == ""], sc.Variants[0].Name), Variant: sc.Variants[vi].Name})
+							break
+						}
+					}
+				}
+			}
 			if f, why := diffStates(a, b); f != "" {
 				class := "generated-file-differs"
 				if f == "gengo.sum" {
